@@ -41,6 +41,12 @@ from allmydata.mutable.publish import MutableData
 from allmydata.mutable.common import UncoordinatedWriteError, NotEnoughServersError, UnrecoverableFileError
 from allmydata.mutable import layout as mlayout
 
+# building a StorageServer computes the 1024 crawler prefixes twice with the pure function si_b2a: memoise it
+# (a scenario builds up to 12 servers and the DFS re-executes scenarios from scratch)
+import functools
+import allmydata.storage.crawler as _crawler
+_crawler.si_b2a = functools.lru_cache(maxsize=4096)(_crawler.si_b2a)
+
 RTW = "slot_testv_and_readv_and_writev"
 READV = "slot_readv"
 SDMF_CS = struct.calcsize(mlayout.PREFIX)
